@@ -648,6 +648,29 @@ func init() {
 			e.call(a[1], nil, nil)
 			return nil, true
 		},
+		// sync.Pool: a LIFO free list kept beside the interpreter heap
+		"(*sync.Pool).Get": func(e *Exec, a []Value) (Value, bool) {
+			p := a[0].(*Value)
+			if l := e.pools[p]; len(l) > 0 {
+				v := l[len(l)-1]
+				e.pools[p] = l[:len(l)-1]
+				return v, true
+			}
+			st := (*p).(Struct)
+			newFn := st[len(st)-1]
+			if _, isNil := newFn.(NilFunc); isNil {
+				return Iface{}, true
+			}
+			return e.call(newFn, nil, nil), true
+		},
+		"(*sync.Pool).Put": func(e *Exec, a []Value) (Value, bool) {
+			p := a[0].(*Value)
+			if x, ok := a[1].(Iface); ok && x.T == nil {
+				return nil, true
+			}
+			e.pools[p] = append(e.pools[p], a[1])
+			return nil, true
+		},
 		"log.Printf":  noop,
 		"log.Println": noop,
 		"log.Print":   noop,
@@ -1051,6 +1074,15 @@ func init() {
 			bs := e.concInt(a[3])
 			if f.S == nil {
 				return cs(strconv.FormatFloat(f.C, fm, prec, bs)), true
+			}
+			if fm == 'f' && f.S.Int && f.S.Sort.K == SFP {
+				// integral IEEE value (result of Floor): its decimal rendering is that of the integer
+				iv := e.floatToInt(f, 64, true).(Int)
+				s := e.itoa(iv)
+				if prec > 0 {
+					s = strConcat(s, cs("."+strings.Repeat("0", prec)))
+				}
+				return s, true
 			}
 			if fm == 'f' && f.S.Int && f.S.IntT != nil {
 				s := e.itoa(Int{W: 64, Sg: true, S: f.S.IntT})
